@@ -566,7 +566,7 @@ func run(prop string) int {
 		"inputs_refed_to_rebuild_a_RawNode_from_its_history": refeeds, "states_revalidated_straight_line_without_memo": validated}
 	cov["lookahead_states_electable_without_committed_entry"] = look
 	cov["explanation"] = "transition function = the real raft.RawNode. A transition of the group is one event applied to one member (Step/Campaign/Propose/Tick/... plus the complete handling of the Ready structs). " +
-		"A member's state is a deterministic function of its own input history, so each distinct (input history, input) pair is executed by a RawNode once per worker process and its observable result (persisted log, HardState, Status, votes, emitted messages, applied entries) is memoised; " +
+		"A member's state is a deterministic function of its own input history, so each distinct (input history, input) pair is executed by a RawNode once per worker process and its observable result (persisted log and snapshot, HardState, Status, votes, emitted messages, applied entries, application state digest) is memoised; " +
 		"traces_validated_against_impl counts group transitions, library_calls says how many RawNode executions they were composed from; one expanded state in 64 is re-executed straight-line on fresh RawNodes without the memo and must give the same state hash; every counterexample is re-executed that way 5 times before it is reported."
 	cov["state_hash"] = "SHA-1 of the canonical serialisation truncated to 64 bit (hash compaction)"
 	if len(co.internal) > 0 {
@@ -584,13 +584,41 @@ func run(prop string) int {
 		}
 	}
 	cov["regions_entered_transitions"] = agg
+	// snapshot / compaction events, pulled out of the region counters so that a reader sees at
+	// a glance that they are exercised (transitions, summed over the boxes; per box under
+	// boxes[].transitions_with and boxes[].transitions_by_event)
+	snapcov := map[string]interface{}{}
+	for _, b := range []int{bit(fCompact), bit(fCompactFollower), bit(fCompacted), bit(fSnapSent), bit(fSnapDelivered), bit(fSnapApplied), bit(fSnapStale), bit(fSnapBehindCompact), bit(fRestartCompacted), bit(fReleased)} {
+		snapcov[flagNames[b]] = agg[flagNames[b]]
+	}
+	evAgg := map[string]int{}
+	statesCompacted := 0
+	var snapBoxes []string
+	for _, st := range co.stats {
+		for _, k := range []uint8{evCompact, evDelay, evDupDelay, evRelease} {
+			evAgg[evNames[k]] += st.EventCounts[evNames[k]]
+		}
+		statesCompacted += st.FlagStates[flagNames[bit(fCompacted)]]
+		if st.Box != nil && st.Box.Bud.Compacts > 0 {
+			snapBoxes = append(snapBoxes, st.Box.ID)
+		}
+	}
+	snapcov["events"] = evAgg
+	snapcov["states_reached_after_at_least_one_compaction"] = statesCompacted
+	snapcov["boxes_with_compaction_in_the_alphabet"] = snapBoxes
+	snapcov["legend"] = "compaction = application snapshot at the applied index (Storage.CreateSnapshot) + Storage.Compact up to it, on leaders and followers; " +
+		"stale_msgsnap_handled_after_receiver_compacted_beyond_it = a MsgSnap of a term the receiver accepts, delivered when the receiver's own storage already starts at a higher snapshot index " +
+		"(the library has to recognise it as obsolete without being able to look up the term at that index)"
+	cov["snapshot_compaction_coverage"] = snapcov
 	assumptions := []string{
 		"a node's local step and the handling of the Ready structs it produces (persist, send, apply, Advance) form one atomic transition; a crash in between is represented by crash + message loss",
 		"elections are started only by the campaign event: ElectionTick is larger than any number of ticks in a run (pass 1) or the randomised election timeout is pinned (passes with PreVote/CheckQuorum)",
 		"MemoryStorage stands for the persistent store; everything written to it survives a crash",
 		"states are de-duplicated on a 64-bit hash of the canonical serialisation",
 		"three RawNode fields not exposed by Status() are read through reflection offsets for the state key: prs.Votes, electionElapsed; randomizedElectionTimeout is written (pinned)",
-		"a member's behaviour depends only on its own input history (no shared mutable state between RawNodes), which is what makes per-member memoisation sound; checked by sampled straight-line re-execution",
+		"a member's behaviour depends only on its own input history (no shared mutable state between RawNodes), which is what makes per-member memoisation sound; checked by sampled straight-line re-execution. compact(n) is an input of that history like any other, so a compacted and an uncompacted storage never share a memo entry; the state key contains the storage's first index, snapshot index/term/configuration/payload and every remaining entry",
+		"the application snapshots at its applied index and compacts the log up to the same index (no catch-up entries are kept); snapshot payload = running hash of the applied entries, which stands for the state machine",
+		"a delayed message (delay / dupDelayed) stays outside the network for an arbitrary time and re-enters it at a quiescent point (release); the set of delayed messages is part of the state",
 		"Box B de-duplicates on (state, FIFO order of the pool) with the minimum number of deviations; Box A on (state, multiset of the pool)",
 	}
 	code := co.rep.Finish(cov, assumptions)
